@@ -91,4 +91,18 @@ def check(tier='quick', tol=2e-4):
                     wit['observed'] = '%s(t=%s) = %.6f from SIR_pair_based_pure_IC, the master equation gives %.6f (max deviation %.2e, tolerance %.0e)' % (
                         'SIR'[c], t[i], got[i, c], want[i, c], err, tol)
                     return n, wit
+    # the same graph OBJECT re-weighted in place between two calls: the second call must see the new weights
+    T = nx.path_graph(4)
+    for j, (u, v) in enumerate(T.edges()):
+        T[u][v]['tw'] = 1.0 + 0.5 * j
+    for rnd in range(2):
+        n += 1
+        t, S, I, R = EoN.SIR_pair_based_pure_IC(T, tau, gamma, [0], tmin=0.0, tmax=2.0, tcount=3, transmission_weight='tw')
+        want = master_equation_SIR(T, lambda a, b: tau * T[a][b]['tw'], lambda a: gamma, {0}, set(), list(t))
+        err = np.abs(np.array([S, I, R], dtype=float).T - want).max()
+        if not (err <= tol):
+            return n, dict(tree='path P4, one graph object used twice', call=rnd + 1, edge_weights=[T[a][b]['tw'] for a, b in T.edges()],
+                           observed='call %d on the same graph object (weights changed in place before it): max deviation from the master equation %.3e' % (rnd + 1, err))
+        for j, (u, v) in enumerate(T.edges()):
+            T[u][v]['tw'] = 3.0 - 1.25 * j if j < 2 else 0.0
     return n, None
